@@ -14,8 +14,11 @@ REQUESTS = {
     'item1': ('GET', '/item/1'), 'item2': ('GET', '/item/2'), 'post': ('POST', '/postonly'), 'wrong': ('GET', '/postonly'),
     'boom': ('GET', '/boom/7'), 'nb': ('GET', '/nb/x'), 'missing': ('GET', '/nope'), 'redir': ('GET', '/branch'), 'ctx': ('GET', '/ctx/9'),
     'multi': ('GET', '/multi/a/b/c'), 'nbfall': ('GET', '/fall/q'),
+    # one path, two method-restricted routes, and a method neither admits
+    'get2': ('GET', '/two/3'), 'post2': ('POST', '/two/4'), 'put2': ('PUT', '/two/5'),
 }
-PAIRS_QUICK = [('item1', 'item2'), ('item1', 'boom'), ('post', 'wrong'), ('nb', 'missing'), ('redir', 'item2'), ('ctx', 'multi'), ('nbfall', 'item1')]
+PAIRS_QUICK = [('item1', 'item2'), ('item1', 'boom'), ('post', 'wrong'), ('nb', 'missing'), ('redir', 'item2'), ('ctx', 'multi'), ('nbfall', 'item1'),
+               ('post2', 'put2'), ('get2', 'post2'), ('redir', 'missing'), ('item1', 'wrong')]
 
 
 def build_app():
@@ -57,7 +60,13 @@ def build_app():
 
     def fall2(q, _dispatch_state):
         return Response('second %s after %d' % (q, len(_dispatch_state.exceptions)))
-    routes = [('/item/<n:int>', item), POST('/postonly', post), ('/boom/<n:int>', boom), ('/nb/<x>', nb), ('/branch/', lambda: Response('b')),
+    def two_get(n):
+        return Response('two GET %s' % n)
+
+    def two_post(n):
+        return Response('two POST %s' % n)
+    from clastic import GET
+    routes = [('/item/<n:int>', item), POST('/postonly', post), GET('/two/<n:int>', two_get), POST('/two/<n:int>', two_post), ('/boom/<n:int>', boom), ('/nb/<x>', nb), ('/branch/', lambda: Response('b')),
               ('/ctx/<n:int>', ctx, render_basic), ('/multi/<p+>', multi), ('/fall/<q>', fall), ('/fall/<q>', fall2)]
     return Application(routes, middlewares=[Provider()])
 
@@ -124,11 +133,17 @@ def mask(r):
 
 
 def impl(case):
-    app = build_app()
     solo = dict((n, mask(serve(build_app(), n))) for n in set([case['a']] + list(case['bs'])))
     out = {'schedules': 0, 'violations': [], 'ids': 0}
     ids = []
-    _, nlines = Scheduler(app, case['a'], [], {}).run()
+    # every schedule runs twice: on a COLD application (fresh object, nothing served yet - lazily built state is
+    # still being built while the other thread arrives) and on one WARM application shared by all schedules of the
+    # case (whatever an earlier request left behind is still there)
+    _, nlines = Scheduler(build_app(), case['a'], [], {}).run()
+    app = build_app()
+    _, nwarm = Scheduler(app, case['a'], [], {}).run()
+    _, nwarm = Scheduler(app, case['a'], [], {}).run()
+    nlines = max(nlines, nwarm)
     out['lines'] = nlines
     if case['mode'] == 'single':
         plans = [{k: case['bs'][0]} for k in range(1, nlines + 1)]
@@ -141,16 +156,24 @@ def impl(case):
     else:
         plans = []
     for plan in plans:
-        s = Scheduler(app, case['a'], [], plan)
-        ra, _ = s.run()
-        out['schedules'] += 1
-        ids.append(ra.get('rid'))
-        if ra.get('_hung') or mask(ra) != solo[case['a']]:
-            out['violations'].append({'plan': sorted(plan.items()), 'where': s.where, 'thread': 'A', 'request': case['a'], 'got': ra, 'solo': solo[case['a']]})
-        for name, rb in s.results_b:
-            ids.append(rb.get('rid'))
-            if rb.get('_hung') or mask(rb) != solo[name]:
-                out['violations'].append({'plan': sorted(plan.items()), 'where': s.where, 'thread': 'B', 'request': name, 'got': rb, 'solo': solo[name]})
+        for temp in ('cold', 'warm'):
+            the_app = build_app() if temp == 'cold' else app
+            cold_ids = []
+            s = Scheduler(the_app, case['a'], [], plan)
+            ra, _ = s.run()
+            out['schedules'] += 1
+            (ids if temp == 'warm' else cold_ids).append(ra.get('rid'))
+            if ra.get('_hung') or mask(ra) != solo[case['a']]:
+                out['violations'].append({'plan': sorted(plan.items()), 'app': temp, 'where': s.where, 'thread': 'A', 'request': case['a'],
+                                          'got': ra, 'solo': solo[case['a']]})
+            for name, rb in s.results_b:
+                (ids if temp == 'warm' else cold_ids).append(rb.get('rid'))
+                if rb.get('_hung') or mask(rb) != solo[name]:
+                    out['violations'].append({'plan': sorted(plan.items()), 'app': temp, 'where': s.where, 'thread': 'B', 'request': name,
+                                              'got': rb, 'solo': solo[name]})
+            real_cold = [i for i in cold_ids if i not in (None, 'None')]
+            if len(set(real_cold)) != len(real_cold):
+                out['violations'].append({'plan': 'ids', 'duplicate_ids': sorted(set(i for i in real_cold if real_cold.count(i) > 1))[:5]})
         if len(out['violations']) > 3:
             break
     if case['mode'] == 'stress':
@@ -207,10 +230,10 @@ def run(rep, b, tier, seed, only_cases=None):
             cases.append({'mode': 'stress', 'a': rng.choice(sorted(REQUESTS)), 'bs': [rng.choice(sorted(REQUESTS)) for _ in range(3)],
                           'count': 100 if tier == 'quick' else 1000})
     rep.rule = ('conclab: one shared application with a provides-middleware; request catalogue of %d kinds (different routes and '
-                'parameters, POST, 405, uncaught exception, non-breaking error -> 404, unknown URL, slash redirect, rendered context, '
+                'parameters, POST, 405, two method-restricted routes on one path with GET / POST / a method neither admits, uncaught exception, non-breaking error -> 404, unknown URL, slash redirect, rendered context, '
                 'multi-segment binding, non-breaking fallthrough to a later route); EVERY single-preemption schedule of %s request pairs '
                 '(thread A suspended before each of its ~100 line events inside clastic/ and the generated chain code while thread B '
-                'serves its whole request), seeded multi-preemption schedules with 2-3 intruding requests, and free-running stress with '
+                'serves its whole request) - each schedule once on a COLD application object and once on a WARM one shared by the case -, seeded multi-preemption schedules with 2-3 intruding requests, and free-running stress with '
                 'switch interval 1e-6; every response (status, body incl. URL parameters / provided token / dispatch-state size, '
                 'Location) is compared with the request served alone on a fresh application; all request ids must be distinct. '
                 'non-trivial = schedules executed.' % (len(REQUESTS), 'selected' if tier == 'quick' else 'all ordered'))
